@@ -70,6 +70,9 @@ New(shape, req) ==
 ----------------------------------------------------------------------------
 (* Semantics                                                               *)
 
+\* headers go out once: with SendHeader, the first message or the status
+Flush(st) == IF st.hsent THEN st ELSE [st EXCEPT !.hsent = TRUE, !.hvis = st.hs]
+
 CtxTerm(st) == Term(st.cx, "")
 \* header metadata a client can still see once its context has ended: what it already
 \* knew, else whatever made it across in time
@@ -113,8 +116,11 @@ ClientStart(st, e) ==
       [] e.c = "header" -> { [st EXCEPT !.pend = "header"] }
       [] e.c = "trailer" -> { [st EXCEPT !.trls = Append(@, IF st.src = "server" THEN st.tr ELSE AnyMD)] }
       [] e.c \in {"cancel", "deadline"} ->
-           EndPending([st EXCEPT !.cx = IF e.c = "cancel" THEN "Canceled" ELSE "DeadlineExceeded",
-                                 !.retAtCx = st.ret /\ ~st.term.has, !.entAtCx = st.ent])
+           \* (a deadline also expires on the server, which then ends the call itself and may
+           \*  flush the header metadata set so far together with its DeadlineExceeded status)
+           LET b == IF e.c = "deadline" /\ st.ent THEN Flush(st) ELSE st IN
+           EndPending([b EXCEPT !.cx = IF e.c = "cancel" THEN "Canceled" ELSE "DeadlineExceeded",
+                                !.retAtCx = st.ret /\ ~st.term.has, !.entAtCx = st.ent])
   ELSE
     CASE e.c = "-" -> {st}
       [] e.c = "open" -> { [st EXCEPT !.opened = TRUE] }      \* refused here or at the first read: same transcript
@@ -124,8 +130,6 @@ ClientStart(st, e) ==
       [] e.c = "header" -> { [st EXCEPT !.hdrs = Append(@, h), !.hcx = 1] : h \in HdrOpts(st) }
       [] e.c = "trailer" -> { [st EXCEPT !.trls = Append(@, IF st.src = "server" THEN st.tr ELSE AnyMD)] }
       [] OTHER -> {st}
-
-Flush(st) == IF st.hsent THEN st ELSE [st EXCEPT !.hsent = TRUE, !.hvis = st.hs]
 
 ServerOp(st, e, i) ==
   IF st.cx = "no" THEN
@@ -149,7 +153,9 @@ ServerOp(st, e, i) ==
     \* the client is gone: the only thing that can still reach it is what was sent while
     \* its context ended
     CASE e.s = "send" /\ e.c \in {"cancel", "deadline"} -> [Flush(st) EXCEPT !.inflight = Append(@, e.v), !.ssent = Append(@, e.v)]
-      [] e.s = "wait" -> [st EXCEPT !.sawCx = TRUE]
+      \* seeing the context end on the server proves that the client side has processed a
+      \* cancellation (that is what resets the stream); a deadline also fires on the server's own timer
+      [] e.s = "wait" -> [st EXCEPT !.sawCx = (st.cx = "Canceled")]
       \* a handler that returns without having seen the end of the context may still get its
       \* status through before the client side has processed the cancellation
       [] e.s = "return" -> IF st.sawCx THEN [st EXCEPT !.ret = TRUE, !.rcode = e.code, !.rv = e.v]
